@@ -249,7 +249,8 @@ class IASolverBaseClass:  # pylint: disable=R0902
         self._clear_precoder_filter()
 
         if P is not None:
-            self._P = P
+            # Keep our own (double precision) copy of the power
+            self._P = np.array(P, dtype=float)
 
         self._full_F = full_F
 
@@ -461,20 +462,24 @@ class IASolverBaseClass:  # pylint: disable=R0902
             # Note that if self._P is None then the getter property will
             # return a numpy array of ones with the appropriated size.
             self._P = None
-        elif np.isscalar(value):
+        elif np.ndim(value) == 0:
+            # A python or numpy scalar, or a 0-dimensional array
             if value > 0.0:
-                self._P = np.ones(self.K, dtype=float) * value
+                self._P = np.ones(self.K, dtype=float) * float(value)
             else:
                 raise ValueError("P cannot be negative or equal to zero.")
         else:
             assert (not isinstance(value, float))
-            if len(value) != self.K:
+            # The power is always stored as a 1D array of floats, whatever
+            # the element type (ints, float32, ...) of the provided sequence
+            # is, so that `sqrt(P)` is computed in double precision.
+            value = np.array(value, dtype=float)
+            assert (isinstance(value, np.ndarray))
+            if value.ndim != 1 or len(value) != self.K:
                 raise ValueError("P must be set to a sequence of length K")
 
-            value = np.array(value)
-            assert (isinstance(value, np.ndarray))
             if np.all(value > 0.0):
-                self._P = np.array(value)
+                self._P = value
             else:
                 raise ValueError("P cannot be negative or equal to zero.")
 
